@@ -152,6 +152,32 @@ class SymRotation:
         out = out.view(A.SymArray)
         return out[0] if self._single else out
 
+    def magnitude(self):
+        """rotation angle: an opaque non-negative real per rotation that is 0 exactly for the identity (no numeric model of the angle)"""
+        ex = cur()
+        out = []
+        if self._mat is not None:
+            mats = self._mat.view(np.ndarray)
+            for m in mats:
+                ident = z3.And(*[_real(lift(_coerce(m[i][j]))) == (1 if i == j else 0) for i in range(3) for j in range(3)])
+                out.append(ident)
+        else:
+            for row in self._rows():
+                q = [_real(lift(_coerce(c))) for c in row]
+                out.append(z3.And(q[0] == 0, q[1] == 0, q[2] == 0))
+        res = []
+        for ident in out:
+            iv = z3.simplify(ident)
+            if z3.is_true(iv):
+                res.append(0.0)
+                continue
+            mag = z3.Real(ex.fresh_name("magnitude"))
+            ex.assume(z3.And(mag >= 0, (mag == 0) == ident))
+            res.append(Sym(mag))
+        if self._single or len(res) == 1 and getattr(self, "_single", False):
+            return res[0]
+        return A.to_symarray(res) if any(isinstance(v, Sym) for v in res) else np.array(res)
+
     def inv(self):
         if self._mat is not None:
             return SymRotation(mat=np.swapaxes(self._mat.view(np.ndarray), 1, 2), single=self._single)
